@@ -408,7 +408,8 @@ def check_property(pid: str, spec: dict, tier: str, seed: int) -> int:
     # a function under contract that can no longer be analysed at all (its target vanished or changed kind, the executor
     # crashed on it) is a checker error, not a verdict - unless a witness family of that contract, run on the real code, fails:
     # that is a real failing input of a function whose obligations were discharged on the verified tree
-    for fid, why in list(crashes):
+    fn_level_undecided = [(fid_, why_) for fid_, why_ in undecided if fid_ in w.contracts]
+    for fid, why in list(crashes) + fn_level_undecided:
         c = w.contracts.get(fid)
         if c is None or not any(oid.startswith(fid) and st == "discharged" for oid, st in ledger.items()):
             continue
